@@ -5,6 +5,7 @@ package exec
 import (
 	"fmt"
 	"go/types"
+	"os"
 	"runtime/debug"
 	"sort"
 	"strings"
@@ -111,16 +112,16 @@ type pathState struct {
 
 // Limits of one exploration.
 type Limits struct {
-	MaxSteps     int // instructions per path
-	MaxLoop      int // visits of one block per frame activation
-	Preemptions  int
-	TimerFires   int
+	MaxSteps    int // instructions per path
+	MaxLoop     int // visits of one block per frame activation
+	Preemptions int
+	TimerFires  int
 	// timers whose (concrete) duration exceeds the horizon never fire: the
 	// explored runs last less virtual time than that (0 = any timer may fire)
 	TimerHorizonNS int64
-	WantWitness  map[string]bool // reach labels for which a model is wanted
-	CollectTrace bool
-	Params       map[string]int
+	WantWitness    map[string]bool // reach labels for which a model is wanted
+	CollectTrace   bool
+	Params         map[string]int
 }
 
 func (m *Machine) live() bool { return m.ps.pos >= len(m.ps.prefix) }
@@ -689,6 +690,9 @@ func (p *Program) Reexecute(o ExploreOpts, v Violation) (bool, error) {
 	m.limits = o.Limits
 	m.AllocBound = o.Alloc
 	m.reportInReplay = true
+	if os.Getenv("GOSYM_VERBOSE") != "" {
+		m.Log = os.Stdout
+	}
 	var prefix []decision
 	for i := 0; i+1 < len(v.Trace); i += 2 {
 		prefix = append(prefix, decision{dkind(v.Trace[i]), v.Trace[i+1]})
